@@ -182,11 +182,11 @@ def parts(tier):
     g = 2048 if tier == "quick" else 20000
     return [
         Part("small", strategy=lambda t: pc.system_case(profile="small", nonunit=True, guard=g), check=check,
-             quick=(3, 900), thorough=(6, 12000)),
+             quick=(3, 1500), thorough=(6, 12000)),
         Part("wide", strategy=lambda t: pc.system_case(profile="wide", nonunit=True, guard=g), check=check,
-             quick=(3, 600), thorough=(6, 8000)),
+             quick=(3, 900), thorough=(6, 8000)),
         Part("model", strategy=lambda t: pc.model_poly_case(guard=g), check=check,
-             quick=(1, 400), thorough=(2, 5000)),
+             quick=(1, 600), thorough=(2, 5000)),
         Part("model_wide", strategy=lambda t: pc.model_poly_case(guard=g, wide=True), check=check,
-             quick=(1, 300), thorough=(2, 3000)),
+             quick=(1, 400), thorough=(2, 3000)),
     ]
